@@ -2818,23 +2818,6 @@ func (p *Posix) PutObject(ctx context.Context, po s3response.PutObjectInput) (s3
 		return s3response.PutObjectOutput{}, s3err.GetAPIError(s3err.ErrExistingObjectIsDirectory)
 	}
 
-	// if the versioninng is enabled first create the file object version
-	if p.versioningEnabled() && vStatus != "" && err == nil {
-		var isVersionIdMissing bool
-		if p.isBucketVersioningSuspended(vStatus) {
-			vIdBytes, err := p.meta.RetrieveAttribute(nil, *po.Bucket, *po.Key, versionIdKey)
-			if err != nil && !errors.Is(err, meta.ErrNoSuchKey) {
-				return s3response.PutObjectOutput{}, fmt.Errorf("get object versionId: %w", err)
-			}
-			isVersionIdMissing = len(vIdBytes) == 0
-		}
-		if !isVersionIdMissing {
-			_, err := p.createObjVersion(*po.Bucket, *po.Key, d.Size(), acct)
-			if err != nil {
-				return s3response.PutObjectOutput{}, fmt.Errorf("create object version: %w", err)
-			}
-		}
-	}
 	if errors.Is(err, syscall.ENAMETOOLONG) {
 		return s3response.PutObjectOutput{}, s3err.GetAPIError(s3err.ErrKeyTooLong)
 	}
@@ -2899,6 +2882,29 @@ func (p *Posix) PutObject(ctx context.Context, po s3response.PutObjectInput) (s3
 	if written < contentLength {
 		// the body ended before the declared number of bytes
 		return s3response.PutObjectOutput{}, s3err.GetAPIError(s3err.ErrIncompleteBody)
+	}
+
+	// if the versioning is enabled create the file object version of the
+	// object being replaced. Only now: the body has been received and every
+	// check on it (signature, digests, length) has passed, an upload that
+	// is refused must not leave a copy of the current version behind
+	if p.versioningEnabled() && vStatus != "" {
+		if d, err := os.Stat(name); err == nil && !d.IsDir() {
+			var isVersionIdMissing bool
+			if p.isBucketVersioningSuspended(vStatus) {
+				vIdBytes, err := p.meta.RetrieveAttribute(nil, *po.Bucket, *po.Key, versionIdKey)
+				if err != nil && !errors.Is(err, meta.ErrNoSuchKey) {
+					return s3response.PutObjectOutput{}, fmt.Errorf("get object versionId: %w", err)
+				}
+				isVersionIdMissing = len(vIdBytes) == 0
+			}
+			if !isVersionIdMissing {
+				_, err := p.createObjVersion(*po.Bucket, *po.Key, d.Size(), acct)
+				if err != nil {
+					return s3response.PutObjectOutput{}, fmt.Errorf("create object version: %w", err)
+				}
+			}
+		}
 	}
 
 	dir := filepath.Dir(name)
